@@ -157,6 +157,14 @@ def tok_resched(ctx):
             nsites += 1
     if nsites < 6:
         out.append(undecided('TOK-resched', 'floor', 'found %d owner Idle-release sites, expected at least 6' % nsites))
+    # an owner never hands the queue straight to Pending: it releases to Idle and reschedule_queue (which also tells the sync callers blocked
+    # in wake_blocked that the queue can be claimed) decides what happens next
+    direct = sorted(set(fname for fname, _, snaps in events_of(P, 'write') if any(role == 'owner' and s2 == 'Pending' and s != s2 for (s, s2, role) in snaps)))
+    for fname in direct:
+        out.append(bad('TOK-resched', '%s|owner->Pending' % short(fname), 'the runner marks the queue Pending itself instead of releasing it to Idle and calling reschedule_queue: '
+                       'sync callers blocked on this queue (wake_blocked) are not told that it can be claimed and wait for a pool thread that may never come', fn=fname))
+    if not direct:
+        out.append(ok('TOK-resched', 'owner->Pending', 'no runner writes Pending directly; only reschedule_queue and schedule_job_desync mark a queue Pending'))
     # callee side: the Idle row of reschedule_queue may skip scheduling only when the queue is empty
     rex = [snaps for fname, _, snaps in events_of(P, 'region_exit') if fname == RESCHED]
     if not rex:
